@@ -224,7 +224,7 @@ Definition c08_clauses (c : case) (a : atx) : list (N * bool) :=
 Definition no_empty {A B} (o : option (list (A * list B))) : bool :=
   match o with Some [] => false | Some l => forallb (fun p => match snd p with [] => false | _ => true end) l | None => true end.
 
-(** known class (F10-3): the template's input blocks name one UTxO more than once; the inputs
+(** known class (F10-5): the template's input blocks name one UTxO more than once; the inputs
     field then lists it as often (a pinned test, smoke_test_vesting_unlock, pins the hash of such
     a body) *)
 Definition repeated_input (t : tx) : bool :=
